@@ -130,7 +130,9 @@ def binary(max_size=24, big=True):
 
 # ---- datetimes (shared with C13)
 
-ZONES = ["Europe/Amsterdam", "America/New_York", "Australia/Lord_Howe", "Asia/Kathmandu", "Pacific/Apia", "UTC"]
+# (London / Lisbon / Casablanca are at offset zero for part of the year only, Reykjavik always)
+ZONES = ["Europe/Amsterdam", "America/New_York", "Australia/Lord_Howe", "Asia/Kathmandu", "Pacific/Apia", "UTC",
+         "Europe/London", "Europe/Lisbon", "Africa/Casablanca", "Atlantic/Reykjavik"]
 
 
 def tzinfos(naive=True):
